@@ -478,7 +478,12 @@ impl<'a, 'tcx> Cx<'a, 'tcx> {
                             if let Some(inner) = inner {
                                 if let ExprKind::Match(_, iarms, _) = peel(inner).kind {
                                     for ia in iarms {
-                                        if let PatKind::TupleStruct(_, [p], _) = ia.pat.kind {
+                                        let some_pat = match ia.pat.kind {
+                                            PatKind::TupleStruct(_, [p], _) => Some(p),
+                                            PatKind::Struct(_, [f], _) => Some(f.pat),
+                                            _ => None,
+                                        };
+                                        if let Some(p) = some_pat {
                                             let ps = self.pat(p);
                                             let hs = self.expr(head);
                                             let bs = self.expr(ia.body);
